@@ -12,6 +12,11 @@ class Unsupported(Exception):
     """Construct outside the supported subset: the function is UNDECIDED."""
 
 
+class BoundedOut(Exception):
+    """A path left the explicitly stated bound of a bounded stand-in; it is
+    counted and reported, never treated as verified."""
+
+
 class Opt:
     """Symbolic optional: `isnone` (z3 Bool) and the value when not None."""
     __slots__ = ('isnone', 'val')
@@ -235,7 +240,10 @@ class MapObj:
 
     def copy(self):
         m = MapObj(self.name, self.elem_cls, self.dom, dict(self.arrays), self.layout)
-        m.size = self.size
+        for k, v in self.__dict__.items():
+            if k not in ('arrays',):
+                setattr(m, k, list(v) if isinstance(v, list) else v)
+        m.arrays = dict(self.arrays)
         return m
 
 
